@@ -57,6 +57,7 @@ type c06job struct {
 	hunt     bool
 	seq      []*tak.Position // kind "dfpnseq": one solver proves these in a row
 	seqG     []*retroGraph
+	forceModel bool // compare with the model whatever the cost (thorough tier: one long run WITH repetitions)
 	crossFresh bool // "dfpnseq" without an exact oracle: a solved verdict of the reused solver may not contradict a fresh solver's
 	seqWon   []int // "dfpnseq" of a known finding: the attacker wins call i's root within seqWon[i] plies (0: not known)
 	bigModel bool // follow-up run on a root where repetition was seen: larger model budget
@@ -341,7 +342,7 @@ func (j *c06job) run() {
 				attacker = j.root.ToMove()
 			}
 			l2 = fmt.Sprintf("%d %d %d %d %d %d %d %d", r.Proof, r.Disproof, st.Work, st.Repetition, st.Terminal, st.Solved, st.Hits, st.Miss)
-			costOK = st.Work <= c06MaxModelWork || (j.bigModel && st.Work <= 8*c06MaxModelWork)
+			costOK = st.Work <= c06MaxModelWork || (j.bigModel && st.Work <= 8*c06MaxModelWork) || j.forceModel || os.Getenv("C06_FORCE_CASE") != "" // (env: manual one-off model comparisons of long runs)
 			j.rep = int(st.Repetition)
 			j.work = st.Work
 			j.stats["dfpn_work_total"] += int64(st.Work)
@@ -612,6 +613,28 @@ func runC06(c *ctx) {
 			c.printf("%s\n", l)
 		}
 		c.printf("SAMPLE result: %s | %s\n", j.l1, j.l2)
+		return
+	case "tpscfg": // runimpl C06 tpscfg <seed> <pieces> <capstones> "<tps>" dfpn <entries> <N|W|B>: like tps, reserves of a custom configuration
+		pieces, _ := strconv.Atoi(c.args[0])
+		caps, _ := strconv.Atoi(c.args[1])
+		q, err := ptn.ParseTPS(c.args[2])
+		if err != nil {
+			fmt.Fprintln(os.Stderr, err)
+			os.Exit(2)
+		}
+		p, err := c06customTPS(tak.Config{Size: q.Size(), Pieces: pieces, Capstones: caps}, c.args[2])
+		if err != nil {
+			fmt.Fprintln(os.Stderr, err)
+			os.Exit(2)
+		}
+		j, err := c06parse(c.args[3] + ";" + enc(p) + ";" + strings.Join(c.args[4:], " "))
+		if err != nil {
+			fmt.Fprintln(os.Stderr, err)
+			os.Exit(2)
+		}
+		j.root = p
+		j.bigModel = true
+		c06single(c, j)
 		return
 	case "tps": // runimpl C06 tps <seed> "<tps>" pn <maxnodes> <preserve> <maxdepth> [pn2] | dfpn <entries> <N|W|B>
 		p, err := ptn.ParseTPS(c.args[0])
@@ -1222,6 +1245,17 @@ func runC06(c *ctx) {
 		neighbourStreams++
 	}
 	c.stat("known_finding_neighbour_streams", int64(neighbourStreams))
+
+	// thorough tier: ONE long DFPN run that meets repetitions is compared with the model (about 8 minutes of model time): the
+	// quick budget admits no run with Repetition > 0 (the cheapest one on 3x3 with 2 stones + capstone needs 15362 calls of mid),
+	// so this is where the repetition branch of Dfpn.v - and the rule "bounds resting on a repetition cut are not stored" -
+	// is tied to the code (the unrepaired solver needs 81406 calls on this root, the repaired one 15362)
+	if !c.quick() || os.Getenv("C06_BIG_REP_CASE") != "" {
+		if p, err := c06customTPS(tak.Config{Size: 3, Pieces: 2, Capstones: 1}, "11S,2,x/x3/x3 2 3"); err == nil {
+			jobs = append(jobs, &c06job{kind: "dfpn", root: p, entries: 16, attacker: tak.Black, modelOK: true, forceModel: true})
+			c.stat("long_model_runs_with_repetition", 1)
+		}
+	}
 
 	c06runJobs(c, jobs)
 
